@@ -71,7 +71,7 @@ fn gen_case(rng: &mut Rng, tier: Tier, sched_weight: usize, cut: (usize, usize),
   let acts = gen_script(rng, n_hot, uses, &ScriptCfg { len: (3, 28), cut, post_terminal: true });
   {
     let sub_at = if rng.chance(1, 4) { rng.below(acts.len().max(1)) } else { 0 };
-    PCase { threads_flavour: rng.chance(1, 2), fifo: rng.chance(1, 2), n_hot, root, acts, sub_at }
+    PCase { threads_flavour: rng.chance(1, 2), fifo: rng.chance(1, 2), n_hot, root, acts, sub_at, closure_subscriber: rng.chance(1, 4) }
   }
 }
 
